@@ -78,44 +78,45 @@ def crawparams(mp):
 
 
 def cfparams(f):
-    f = f or {}
-    p = f.get('params') or {}
+    f = f if isinstance(f, dict) else {}
+    p = f.get('params') if isinstance(f.get('params'), dict) else {}
     return '(mkFP %s %s %s %s %s)' % (cstr(f.get('function', '')), fhex(p.get('a', 0)), fhex(p.get('b', 0)),
                                       fhex(p.get('alpha', 0)), fhex(p.get('multiplier', 0)))
 
 
-def cbprops(p):
+def cbprops(p, name=''):
     p = p if isinstance(p, dict) else {}
     fat = p.get('params') if isinstance(p.get('params'), dict) else {}
     anch = p.get('anchoringAlternatives') or []
-    rp = p.get('referencePoints') or {}
-    ap = p.get('applier') or {}
+    rp = p.get('referencePoints') if isinstance(p.get('referencePoints'), dict) else {}
+    ap = p.get('applier') if isinstance(p.get('applier'), dict) else {}
     app = ap.get('params') if isinstance(ap.get('params'), dict) else {}
+    # anchoring reads bounding, reference criterion and seed from applier.params
+    src = app if name == 'anchoring' else p
+    fn = p.get('function', '')
     return '(mkBP %s)' % ' '.join([
         cstr(p.get('ordering', '')),
         fhex(p.get('ratio', 0)), cZ(p.get('min', 0)), cZ(p.get('max', MAXINT64)),
-        cZ(p.get('randomSeed', 0)),
-        fhex(p.get('allowedValuesRangeScaling', -1.0)), cbool(p.get('disallowNegativeValues', False)),
-        cstr(p.get('referenceCriterionType', '')), fhex(p.get('newCriterionImportance', 0)),
-        cZ(p.get('newCriterionRandomSeed', 0)),
+        cZ(src.get('randomSeed', 0)),
+        fhex(src.get('allowedValuesRangeScaling', -1.0)), cbool(src.get('disallowNegativeValues', False)),
+        cstr(src.get('referenceCriterionType', '')), fhex(src.get('newCriterionImportance', 0)),
+        cZ(src.get('newCriterionRandomSeed', 0)),
         fhex(p.get('newCriterionScaling', 1.0)),
         fhex(p.get('mixingRatio', 0.5)),
-        cstr(p.get('function', '') if isinstance(p.get('function', ''), str) else ''),
+        cstr(fn if isinstance(fn, str) else ''),
         fhex(fat.get('value', 0)), fhex(fat.get('alpha', 0)), fhex(fat.get('multiplier', 0)),
         cZ(fat.get('queryNumber', 0)),
-        clist('(mkAA %s %s)' % (cstr(a.get('alternative', {}).get('id', '') if isinstance(a.get('alternative'), dict) else a.get('id', '')),
-                                fhex(a.get('coefficient', 0))) for a in anch),
+        clist('(mkAA %s %s)' % (cstr(a.get('alternative', '')), fhex(a.get('coefficient', 0))) for a in anch),
         cfparams(p.get('loss')), cfparams(p.get('gain')),
         cstr(rp.get('function', '')),
         cstr(ap.get('function', '')),
         cbool(app.get('applyOnNotConsidered', False)),
-        cbool(app.get('unlimited', False)),
     ])
 
 
 def cbias(b):
     return '(mkB %s %s %s %s)' % (cstr(b.get('name', '')), cbool(b.get('disabled', False)),
-                                  fhex(b.get('applyProbability', 1.0)), cbprops(b.get('props')))
+                                  fhex(b.get('applyProbability', 1.0)), cbprops(b.get('props'), b.get('name', '')))
 
 
 def crequest(req, with_biases=True):
@@ -230,3 +231,90 @@ def cstate_d(method, d):
                                       clist(calt_d(a) for a in (d.get('ConsideredAlternatives') or [])),
                                       clist(ccrit_d(c) for c in (d.get('Criteria') or [])),
                                       cmparams_d(method, d.get('MethodParameters')))
+
+
+# ---- bias reports (the `props` of a response's bias echo) ------------------------------------------
+
+def caddition(method, mp):
+    """methodParameters of an added criterion as the API shows them"""
+    if not isinstance(mp, dict):
+        return 'A_unknown'
+    if method in ('weightedSum', 'owa', 'majorityHeuristic'):
+        w = mp.get('weights') or {}
+        if len(w) == 1:
+            k, v = list(w.items())[0]
+            return '(A_weight %s %s)' % (cstr(k), fhex(v))
+        return 'A_unknown'
+    if method == 'electreIII':
+        c = mp.get('criteria') or {}
+        if len(c) == 1:
+            k, v = list(c.items())[0]
+            return '(A_electre %s %s)' % (cstr(k), cecrit(v))
+        return 'A_unknown'
+    if method in ('aspectEliminationHeuristic', 'satisfactionHeuristic'):
+        p = mp.get('params')
+        ths = None
+        cid = None
+        if isinstance(p, dict) and p.get('thresholds') is not None:
+            ths = []
+            for t in p['thresholds']:
+                (cid, v), = t.items()
+                ths.append(v)
+        tt = 'None' if ths is None else '(Some %s)' % clist(fhex(v) for v in ths)
+        if method == 'aspectEliminationHeuristic':
+            w = mp.get('weights') or {}
+            if len(w) == 1:
+                k, v = list(w.items())[0]
+                return '(A_aspect %s %s %s)' % (cstr(k), fhex(v), tt)
+            return 'A_unknown'
+        if cid is None:
+            return 'A_unknown'
+        return '(A_satisf %s %s)' % (cstr(cid), tt)
+    return 'A_unknown'
+
+
+def ccomponent(c):
+    return '(mkCP %s %s %s)' % (cstr(c['id']), ctype(c.get('type', '')), cmap(c.get('scaledValues') or {}))
+
+
+def creport(name, method, props):
+    if props is None:
+        return 'R_none'
+    if name == 'criteriaOmission':
+        return '(R_omission %s)' % clist(ccrit(c) for c in (props.get('omittedCriteria') or []))
+    if name == 'preferenceReversal':
+        return '(R_reversal %s)' % clist(
+            '(%s, (%s, %s), %s)' % (ccrit({'id': c['id'], 'type': c.get('type', '')}), fhex(c['valuesRange']['min']),
+                                    fhex(c['valuesRange']['max']), cmap(c.get('alternativesValues') or {}))
+            for c in (props.get('reversedPreferenceCriteria') or []))
+    if name == 'fatigue':
+        return '(R_fatigue %s %s %s)' % (fhex(props['effectiveFatigueRatio']),
+                                         clist(calt(a) for a in (props.get('consideredAlternatives') or [])),
+                                         clist(calt(a) for a in (props.get('notConsideredAlternatives') or [])))
+    if name == 'criteriaConcealment':
+        a = props['addedCriteria'][0]
+        return '(R_concealment %s %s %s)' % (ccrit({'id': a['id'], 'type': a.get('type', ''), 'valuesRange': a.get('valuesRange')}),
+                                             cmap(a.get('alternativesValues') or {}), caddition(method, a.get('methodParameters')))
+    if name == 'criteriaMixing':
+        return '(R_mixing %s %s %s %s)' % (ccomponent(props['component1']), ccomponent(props['component2']),
+                                           ccomponent(props['newCriterion']), caddition(method, props.get('params')))
+    if name == 'anchoring':
+        refs = clist(calt(a) for a in (props.get('referencePoints') or []))
+        sc = props.get('criteriaScaling') or {}
+        scs = clist('(%s, (%s, (%s, %s)))' % (cstr(k), fhex(v['scale']), fhex(v['valuesRange']['min']), fhex(v['valuesRange']['max']))
+                    for k, v in sorted(sc.items(), key=lambda kv: kv[0].encode()))
+        diffs = clist('(%s, %s)' % (calt(d['alternative']),
+                                    clist('(%s, %s)' % (cstr(r['referencePoint']), cmap(r.get('coefficients') or {}))
+                                          for r in (d.get('referencePointsDifference') or [])))
+                      for d in (props.get('perReferencePointsDifferences') or []))
+        ar = props.get('applierResult') or {}
+        if 'appliedDifferences' in ar:
+            art = '(AR_inline %s)' % clist(calt(a) for a in (ar.get('appliedDifferences') or []))
+        else:
+            rc = ar.get('referenceCriterion') or {}
+            art = '(AR_new %s %s)' % (
+                ccrit({'id': rc.get('id', ''), 'type': rc.get('type', ''), 'valuesRange': rc.get('valuesRange')}),
+                clist('(%s, %s, %s)' % (ccrit({'id': a['id'], 'type': a.get('type', '')}), cmap(a.get('alternativesValues') or {}),
+                                        caddition(method, a.get('methodParameters'))) for a in (ar.get('addedCriteria') or [])))
+        return '(R_anchoring %s %s %s %s)' % (refs, scs, diffs, art)
+    return 'R_none'
